@@ -123,39 +123,61 @@ def rule_pending_tables(ctx):
     created = sorted(s.targets[0].attr for s in walk_no_defs(init.node) if isinstance(s, ast.Assign) and is_self_attr(s.targets[0]) and s.targets[0].attr.endswith("_reqs"))
     fn = ctx.program.func(f"{APPSESSION}._errback_outstanding_requests")
     ctx.analysed(fn)
-    # the list of tables: a list/tuple literal of self.*_reqs attributes (assigned to a local or iterated directly)
-    lits = [x for x in ast.walk(fn.node) if isinstance(x, (ast.List, ast.Tuple)) and x.elts and all(is_self_attr(e) and e.attr.endswith("_reqs") for e in x.elts)]
-    ctx.require(len(lits) == 1, "_errback_outstanding_requests: table list not found")
-    lit = lits[0]
-    listed = sorted(e.attr for e in lit.elts)
-    ctx.ob("every pending table created in __init__ is failed at session end", listed == created, f"created {created}, failed {listed}", fn.loc(lit))
     ctx.ob("six request kinds", len(created) == 6, f"{created}", init.loc())
-    lname = None
-    for st in walk_no_defs(fn.node):
-        if isinstance(st, ast.Assign) and st.value is lit and isinstance(st.targets[0], ast.Name):
-            lname = st.targets[0].id
-    loops = [s_ for s_ in walk_no_defs(fn.node) if isinstance(s_, ast.For)]
-    l1 = [l for l in loops if l.iter is lit or (lname is not None and norm.text(l.iter) == lname)]
-    coll = None
-    ok = False
-    if len(l1) == 1 and isinstance(l1[0].target, ast.Name):
-        tv = l1[0].target.id
-        ext = [c for c in calls_in(l1[0]) if isinstance(c.func, ast.Attribute) and c.func.attr == "extend" and isinstance(c.func.value, ast.Name)
-               and c.args and norm.text(c.args[0]) in (f"{tv}.values()", f"list({tv}.values())")]
-        clr = [c for c in calls_in(l1[0]) if norm.text(c.func) == f"{tv}.clear"]
-        if len(ext) == 1 and len(clr) == 1:
-            coll = ext[0].func.value.id
-            # the copy must be taken before the table is emptied
-            ok = ext[0].lineno < clr[0].lineno or (ext[0].lineno == clr[0].lineno and ext[0].col_offset < clr[0].col_offset)
-    ctx.ob("each table is drained into the outstanding list and cleared", ok, "collection loop changed", fn.loc())
+    # decided cell-wise (sa.core.tiny, private helpers evaluated in place): each of the tables created in __init__ holds two requests, one
+    # of them already completed.  Afterwards every table is empty and exactly the uncompleted requests have been rejected, once, with the
+    # given error -- and the tables were already empty when the first errback ran (an errback may issue new requests: they must survive)
+    from ..core.tiny import Tiny, Sym
+    from .common import inline_private
+    cls_ = ctx.program.cls(APPSESSION)
+    body = [x for x in fn.node.body if not (isinstance(x, ast.Expr) and isinstance(x.value, ast.Constant))]
+    probs = []
+    try:
+        for filled in ("all", "none", "only-completed"):
+            tables, futures, done = {}, [], set()
+            for i, nm in enumerate(created):
+                tb = {}
+                if filled != "none":
+                    for j in range(2):
+                        f_ = Sym(f"future-{nm}-{j}")
+                        if j == 1 or filled == "only-completed":
+                            done.add(f_.name)
+                        futures.append(f_)
+                        tb[10 * i + j] = Sym(f"request-{nm}-{j}", on_reply=f_, request_id=10 * i + j, __class__=Sym("class", __name__="Request"))
+                tables[nm] = tb
+            rejected, not_empty_at_reject = [], []
+            exc = Sym("the-error")
+
+            def oracle(f_, a_, k_=None):
+                if f_ == "txaio.is_called" and a_:
+                    return isinstance(a_[0], Sym) and a_[0].name in done
+                if f_ == "txaio.reject" and a_:
+                    if any(tables[nm_] for nm_ in tables):
+                        not_empty_at_reject.append(a_[0])
+                    rejected.append((a_[0], a_[1] if len(a_) > 1 else None))
+                    return None
+                return Sym(f"<{f_}>")
+            env = {"self": Sym("session"), fn.params()[1]: exc, "self.log": Sym("log")}
+            env.update({f"self.{nm}": tables[nm] for nm in created})
+            t = Tiny(env, default_call=oracle, inline_self=inline_private(ctx, cls_, exclude=("_errback_outstanding_requests",)), opaque_globals=True)
+            r = t.run(body)
+            tag = {"all": "two requests per table, one of each already completed", "none": "no request pending", "only-completed": "only completed requests left"}[filled]
+            if r[0] not in ("return", "fall"):
+                probs.append(f"{tag}: {r[0]} {str(r[1])[:60]}")
+                continue
+            left = {nm: t.env.get(f"self.{nm}") for nm in created}
+            if any(v for v in left.values()) or any(tables[nm] for nm in created):
+                probs.append(f"{tag}: requests left in {[nm for nm in created if left[nm] or tables[nm]]}")
+            want = [f_ for f_ in futures if f_.name not in done]
+            if sorted(x[0].name for x in rejected if isinstance(x[0], Sym)) != sorted(f_.name for f_ in want) or any(x[1] is not exc for x in rejected):
+                probs.append(f"{tag}: rejected {[x[0] for x in rejected]} (with the given error: {all(x[1] is exc for x in rejected)}), expected {want}")
+            if not_empty_at_reject:
+                probs.append(f"{tag}: the tables are not yet empty when the first errback runs -- a request issued from an errback is wiped without ever completing")
+    except AnalysisError as e:
+        raise AnalysisError(f"[C06.3-pending-tables] _errback_outstanding_requests outside the modelled subset: {e}")
+    ctx.ob("every pending table created in __init__ is emptied, every uncompleted request in it rejected once with the given error, tables empty before the first errback [3 cells]",
+           not probs, "; ".join(probs[:2]), fn.loc())
     g, mf, res = an.get(fn)
-    rej = [(n, c) for n in g.stmt_nodes() for c in node_calls(n) if call_name(c) == "txaio.reject"]
-    l2 = [l for l in loops if coll is not None and norm.text(l.iter) == coll and isinstance(l.target, ast.Name)]
-    rv = l2[0].target.id if len(l2) == 1 else None
-    ok = len(rej) == 1 and rv is not None and norm.text(rej[0][1].args[0]) == f"{rv}.on_reply" and norm.text(rej[0][1].args[1]) == fn.params()[1] and \
-        any(f[0] == "truth" and "is_called" in f[1] and f"{rv}.on_reply" in f[1] and not f[3] for f in mf.at(rej[0][0]))
-    ctx.ob("every collected request is rejected with the given error unless already completed", ok, "reject changed", fn.loc())
-    ctx.ob("the rejection loop runs over all collected requests", len(l2) == 1 and any(c is rej[0][1] for c in calls_in(l2[0])) if rej else False, "loop changed", fn.loc())
     for name in ("onLeave", "onDisconnect"):
         f2 = ctx.program.func(f"{APPSESSION}.{name}")
         g2, mf2, res2 = an.get(f2)
@@ -243,8 +265,13 @@ def rule_onclose(ctx):
     od = [(n, c) for n in g.stmt_nodes() for c in node_calls(n) if call_name(c) == "txaio.as_future" and c.args and norm.text(c.args[0]) == "self.onDisconnect"]
     ok = len(od) == 1 and g.always_followed_by(g.entry, lambda x: x is od[0][0])
     ctx.ob("onDisconnect is reached on every path of onClose", ok, "disconnect notification can be skipped", fn.loc())
-    succ = [c for c in fn.nested_list() if c.name == "success"]
-    fired = [norm.text(c.args[0]) for s_ in succ for c in calls_in(s_.node) if self_call(c, "fire")]
+    # the success callbacks registered on the two notifications (whatever they are called): the closure of that name defined last before
+    # the registration
+    fired = []
+    for c in sorted([c for c in calls_in(fn.node) if call_name(c) == "txaio.add_callbacks" and len(c.args) >= 2 and isinstance(c.args[1], ast.Name)], key=lambda c: c.lineno):
+        cands = [f_ for f_ in fn.nested_list() if f_.name == c.args[1].id and f_.node.lineno < c.lineno]
+        if cands:
+            fired += [norm.text(c2.args[0]) for c2 in calls_in(cands[-1].node) if self_call(c2, "fire") and c2.args]
     ctx.ob("leave then disconnect observers are fired", fired == ["'leave'", "'disconnect'"], f"fired {fired}", fn.loc())
     # transports
     for q, ref in TRANSPORT_LOSS:
